@@ -38,7 +38,10 @@ func V1Precision(eps float64) V1Set {
 		Flags: []string{fmt.Sprintf("-precision=%g", eps)}}
 }
 
-var v1Sets = []V1Set{V1None, V1SetM, V1Mset, V1Keys, V1Merge, V1SetMerge, V1MsMerge, V1Precision(0.1)}
+var V1MergePrec = V1Set{Name: "v1:MERGE+SetPrecision(0.1)", MD: func() []lib.Metadata { return []lib.Metadata{lib.MERGE, lib.SetPrecision(0.1)} }, Reading: ref.List, Merge: true,
+	Eps: 0.1, HasEps: true, Flags: []string{"-f", "merge", "-precision=0.1"}}
+
+var v1Sets = []V1Set{V1None, V1SetM, V1Mset, V1Keys, V1Merge, V1SetMerge, V1MsMerge, V1Precision(0.1), V1MergePrec}
 
 func ReadJ1(s string) lib.JsonNode {
 	n, err := lib.ReadJsonString(s)
